@@ -6,6 +6,7 @@ from ..r_canon import rule_uncapped_sentinel as _rule_uncapped
 from ..r_canon import rule_morgan_layers as _rule_layers
 from ..r_canon import rule_chain_length_window as _rule_window
 from ..r_round9 import rule_morgan_layers_fresh as _r9_fresh
+from ..r_round10 import rule_morgan_window_radius as _r10_win
 
 LEVEL = 'other'
 
@@ -22,3 +23,4 @@ def run(ck, repo):
     _rule_layers(ck, repo, 'C17.D3-morgan-layers')
     _rule_window(ck, repo, 'C17.D2-length-window')
     _r9_fresh(ck, repo, 'C17.D6-morgan-layers-fresh')
+    _r10_win(ck, repo, 'C17.D7-morgan-window-radius')
